@@ -522,6 +522,35 @@ class Stepper(Machine):
         return bool(t.frames) and t.frames[-1].fq.endswith("Calibrator.calibrate")
 
     # ------------------------------------------------------------------ classification of the node's principal call
+    def _no_nested_protocol_call(self, n: Node, principal: ast.Call | None, fr: Frame, st: State) -> None:
+        """The machine steps a statement through its principal call (`x = q.get()`, `return f()`, `f()`).  A queue / thread / agent operation, or a call of a method
+        that takes part in the protocol, sitting deeper inside the statement's expression (`return xs[self._env.next_action()]`) would be evaluated as an opaque
+        value and its effect lost: such a statement is outside the vocabulary."""
+        key = (fr.fq, n.idx)
+        done = self.__dict__.setdefault("_nested_checked", {})
+        if key in done:
+            if done[key]:
+                raise AnalysisError(done[key])
+            return
+        done[key] = ""
+        a = n.ast
+        if a is None or n.kind in ("join", "entry", "exit"):
+            return
+        roots = [a.iter] if n.kind == "for" and isinstance(a, ast.For) else [i.context_expr for i in a.items] if isinstance(a, ast.With) else [a]
+        for root in roots:
+            for c_ in ast.walk(root):
+                if not isinstance(c_, ast.Call) or c_ is principal:
+                    continue
+                if isinstance(root, (ast.FunctionDef, ast.ClassDef, ast.Lambda)):
+                    continue
+                try:
+                    cc = self.classify(c_, fr, st)
+                except AnalysisError:
+                    continue
+                if cc and cc[0] in ("queue", "thread", "agent", "inline"):
+                    done[key] = f"{self.loc(fr)}: `{src(c_)[:60]}` takes part in the thread protocol but sits inside a larger expression; the machine only steps calls that are the statement's own value"
+                    raise AnalysisError(done[key])
+
     def principal(self, n: Node) -> ast.Call | None:
         a = n.ast
         e = None
@@ -618,6 +647,7 @@ class Stepper(Machine):
         if fr.get("#ret") is not None:
             return None
         call = self.principal(n)
+        self._no_nested_protocol_call(n, call, fr, st)
         if call is not None:
             c = self.classify(call, fr, st)
             if c[0] in ("queue", "thread", "agent"):
